@@ -169,6 +169,9 @@ def run(ctx):
                     ctx.counterexample('glob(%r, %s) = %r; NEGATEALL means everything (`**` as GLOBSTAR) minus the exclusions: %r' % (
                         pats, corr.flag_names(fvn), got[:8], want[:8]), {'patterns': pats, 'flags': corr.flag_names(fvn), 'tree': dspec})
     ctx.counted('NEGATEALL with exclusions only', n3, n3, [{'patterns': ['!*.txt'], 'flags': 'NEGATE|NEGATEALL'}])
+    from props import fringe
+    fringe.case_twin_tree(ctx, 'glob')
+    fringe.newline_exclusions(ctx)
     return ctx.finish(RULE)
 
 
